@@ -44,11 +44,16 @@ extern "C" void k_hull()
     x[i] = xs[i];
     y[i] = ys[i];
   }
-  // general position: no three points on a line
+  // general position: no three points on a line.  On the integer grid a non-zero cross product is at least 1 in
+  // absolute value; it is stated in that form because the solver does not derive it from integrality by itself
+  // (the function compares the same quantity with EPSILON6)
   for (int i = 0; i < N; i++)
     for (int j = i + 1; j < N; j++)
       for (int k = j + 1; k < N; k++)
-        vf_assume(cross(xs[i], ys[i], xs[j], ys[j], xs[k], ys[k]) != 0.);
+      {
+        double c = cross(xs[i], ys[i], xs[j], ys[j], xs[k], ys[k]);
+        vf_assume(c >= 1. || c <= -1.);
+      }
 
   VectorInt idx = Polygons::_getHullIndices(x, y); // REAL code
 
